@@ -84,11 +84,11 @@ def txpValidate (dataHash rootHash : Option Bytes) (tx : Bytes) (p : SimpleProof
     | .ok _ => "ok"
     | .error _ => "err:inconsistent"
 
-/-- `SimpleValueOp.Run([value])` followed by the root comparison of `ProofOperators.Verify` -/
 def mapVerify (key value : Bytes) (root : Option Bytes) (p : SimpleProof) : String :=
-  if ¬ bytesEqual (some (leafHash H (mapLeaf H key value))) p.leafHash then "err:leafhash"
-  else if ¬ bytesEqual root (p.computeRootHash H) then "err:root"
-  else "ok"
+  match valueOpVerify H key value root p with
+  | .ok _ => "ok"
+  | .error .leafHash => "err:leafhash"
+  | .error .root => "err:root"
 
 def pairs : List Bytes → Option (List (Bytes × Bytes))
   | [] => some []
